@@ -13,7 +13,7 @@
 (* Every finished run is printed as a case for replay into the real formatter.                                   *)
 EXTENDS Format, Json
 
-CONSTANTS Allowed, Indents, Margins, CodeMargins, ReplayIndent
+CONSTANTS Allowed, Indents, Margins, CodeMargins, ReplayIndent, CasePairs
 
 T0 == <<>>
 W == <<[k |-> "ws", p |-> <<" ">>]>>
@@ -41,7 +41,26 @@ Forms == <<
   St("assert", ".assert", <<P("1", "t", W)>>, <<P("\"m\"", "t", W)>>, <<>>, T0),
   St("trace", ".trace", <<>>, <<>>, <<>>, T0),
   St("text", ".text", <<P("\"t\"", "t", W)>>, <<P("petscii", "t", W)>>, <<>>, T0),
-  St("pc", "*", <<P("=", "t", W), P("$1000", "t", W)>>, <<>>, <<>>, T0) >>
+  St("pc", "*", <<P("=", "t", W), P("$1000", "t", W)>>, <<>>, <<>>, T0),
+  (* 17.. : the remaining addressing forms, modifiers, directives, imports and configuration maps *)
+  St("insn", "lda", <<P("(", "t", W), P("$10", "t", T0), P(",", "c", T0), P("x", "r", T0), P(")", "t", T0)>>, <<>>, <<>>, T0),
+  St("insn", "jmp", <<P("(", "t", W), P("$1234", "t", T0), P(")", "t", T0)>>, <<>>, <<>>, T0),
+  St("insn", "lda", <<P("#", "t", W), P("<", "t", T0), P("foo", "t", T0)>>, <<>>, <<>>, T0),
+  St("data", ".dword", <<P("$12345678", "t", W)>>, <<>>, <<>>, T0),
+  St("var", ".var", <<P("v", "t", W), P("=", "t", W), P("true", "t", W)>>, <<>>, <<>>, T0),
+  St("align", ".align", <<P("8", "t", W)>>, <<>>, <<>>, T0),
+  St("test", ".test", <<P("\"t\"", "t", W)>>, <<>>, <<B(<<NopIn>>)>>, T0),
+  St("segment", ".segment", <<P("\"default\"", "t", W)>>, <<>>, <<>>, T0),
+  St("segment", ".segment", <<P("\"default\"", "t", W)>>, <<>>, <<B(<<NopIn>>)>>, T0),
+  St("file", ".file", <<P("\"f.bin\"", "t", W)>>, <<>>, <<>>, T0),
+  St("text", ".text", <<P("\"a{c}b\"", "t", W)>>, <<P("petscreen", "t", W)>>, <<>>, T0),
+  St("import", ".import", <<P("*", "c", W)>>, <<P("from", "t", W), P("\"o.asm\"", "t", W)>>, <<>>, T0),
+  St("import", ".import", <<P("*", "c", W), P("as", "a", W), P("m", "t", W)>>, <<P("from", "t", W), P("\"o.asm\"", "t", W)>>, <<>>, T0),
+  St("import", ".import", <<P("foo", "c", W), P("as", "a", W), P("bar", "t", W), P(",", "c", T0), P("baz", "c", W)>>,
+     <<P("from", "t", W), P("\"o.asm\"", "t", W)>>, <<B(<<NopIn>>)>>, T0),
+  St("define", ".define", <<P("segment", "t", W)>>, <<>>,
+     <<B(<<St("cfgpair", "name", <<P("=", "t", W), P("s1", "t", W)>>, <<>>, <<>>, W),
+          St("cfgpair", "start", <<P("=", "t", W), P("$4000", "t", W), P("+", "b", W), P("4", "t", W)>>, <<>>, <<>>, N1 \o W)>>)>>, T0) >>
 
 Block1 == [k |-> "c", p |-> <<"/* c */">>]
 Block2 == [k |-> "c", p |-> <<"/* c", "d */">>]
@@ -50,10 +69,13 @@ LineC == [k |-> "c", p |-> <<"// c">>]
 Inline == {W \o <<Block1>> \o W, W \o <<Block2>> \o W}
 Multi == Inline \cup {W \o <<LineC>> \o N1, N1 \o <<Block1>> \o N1}
 
-Gaps(s) == {<<"lead", 0>>} \cup {<<"p1", n>> : n \in 1..Len(s.p1)} \cup {<<"p2", n>> : n \in 1..Len(s.p2)}
-           \cup (IF s.k = "braces" THEN {} ELSE {<<"bl", n>> : n \in 1..Len(s.blk)}) \cup {<<"br", n>> : n \in 1..Len(s.blk)}
-           \cup (IF Len(s.blk) = 2 THEN {<<"ge", 0>>} ELSE {})
-IsMulti(g) == g[1] \in {"lead", "bl", "br", "ge"}
+Gaps(s) == {<<"lead", 0, 0>>} \cup {<<"p1", n, 0>> : n \in 1..Len(s.p1)} \cup {<<"p2", n, 0>> : n \in 1..Len(s.p2)}
+           \cup (IF s.k = "braces" THEN {} ELSE {<<"bl", n, 0>> : n \in 1..Len(s.blk)}) \cup {<<"br", n, 0>> : n \in 1..Len(s.blk)}
+           \cup (IF Len(s.blk) = 2 THEN {<<"ge", 0, 0>>} ELSE {})
+           \cup (IF s.k = "define"      \* the gaps inside the key = value pairs of a configuration map
+                 THEN UNION {{<<"il", n, 0>>} \cup {<<"ip", n, m>> : m \in 1..Len(s.blk[1].body[n].p1)} : n \in 1..Len(s.blk[1].body)} ELSE {})
+(* parser: mws (newlines and line comments allowed) in front of a statement, "{", "}", else, `from`, and everywhere in a config map *)
+IsMulti(s, g) == g[1] \in {"lead", "bl", "br", "ge", "il", "ip"} \/ (s.k = "import" /\ g[1] = "p2" /\ g[2] = 1)
 Put(s, g, tr) ==
   CASE g[1] = "lead" -> [s EXCEPT !.lead = @ \o tr]
     [] g[1] = "p1" -> [s EXCEPT !.p1[g[2]].g = tr]
@@ -61,18 +83,20 @@ Put(s, g, tr) ==
     [] g[1] = "bl" -> [s EXCEPT !.blk[g[2]].l = tr]
     [] g[1] = "br" -> [s EXCEPT !.blk[g[2]].r = tr]
     [] g[1] = "ge" -> [s EXCEPT !.ge = tr]
+    [] g[1] = "il" -> [s EXCEPT !.blk[1].body[g[2]].lead = tr]
+    [] g[1] = "ip" -> [s EXCEPT !.blk[1].body[g[2]].p1[g[3]].g = tr]
 
-(* the statement under test between two plain instructions, first in the file, or last *)
 Variants(s, g, tr) == { [body |-> <<Nop, [Put(s, g, tr) EXCEPT !.lead = N1 \o @], Nop>>, eof |-> N1],
                         [body |-> <<Put(s, g, tr)>>, eof |-> T0] }
-Files == UNION { UNION { UNION { Variants(Forms[f], g, tr) : tr \in (IF IsMulti(g) THEN Multi ELSE Inline) }
+Files == UNION { UNION { UNION { Variants(Forms[f], g, tr) : tr \in (IF IsMulti(Forms[f], g) THEN Multi ELSE Inline) }
                          : g \in Gaps(Forms[f]) } : f \in 1..Len(Forms) }
 (* two statements sharing a source line (no newline in the gap between them), and `else` already on a line of its own *)
 Ident == St("insn", "lda", <<P("foo", "t", W)>>, <<>>, <<>>, T0)
 SameLineFiles == { [body |-> <<a, [b EXCEPT !.lead = W]>>, eof |-> N1] : a \in {Ident, Forms[12], Forms[6]}, b \in {Forms[1], Forms[12], Forms[4], Forms[6]} }
 ElseFiles == { [body |-> <<[Forms[8] EXCEPT !.ge = g]>>, eof |-> N1] : g \in {W, N1 \o W, N1 \o <<Block1>> \o N1} }
 AllFiles == Files \cup SameLineFiles \cup ElseFiles
-OptGrid == [mcase : {"l", "u"}, rcase : {"l"}, brace : {"same", "new"}, indent : Indents, lm : Margins, align : {"l", "r"}, cm : CodeMargins]
+OptGrid == { [mcase |-> SubSeq(cp, 1, 1), rcase |-> SubSeq(cp, 2, 2), brace |-> b, indent |-> i, lm |-> m, align |-> a, cm |-> c]
+             : cp \in CasePairs, b \in {"same", "new"}, i \in Indents, m \in Margins, a \in {"l", "r"}, c \in CodeMargins }
 
 VARIABLES file, opts, phase, vst, i, js, k
 vars == <<file, opts, phase, vst, i, js, k>>
@@ -106,10 +130,11 @@ RECURSIVE ChunkText(_)
 ChunkText(ch) == IF Len(ch) = 0 THEN "" ELSE (IF Head(ch).ty = "comment" THEN "" ELSE Squeeze(Head(ch).p[1])) \o ChunkText(Tail(ch))
 
 AtEnd == phase = "done"
-CommentsKept ==
+CommentsKept ==      \* the pinned readings may drop the comments of their gaps only while the deviation is tolerated
   AtEnd => \/ ChunkComments(vst.ch) = AllComments(file)
-           \/ /\ "OpenBraceGapDropped" \in Allowed
-              /\ BodyHasDroppedComment(file.body) /\ ChunkComments(vst.ch) = ForwardedComments(file)
+           \/ /\ ChunkComments(vst.ch) = ForwardedComments(file)
+              /\ (BodyHasDroppedComment(file.body) /\ "OpenBraceGapDropped" \in Devs) => "OpenBraceGapDropped" \in Allowed
+              /\ (BodyHasImportArgComment(file.body) /\ "ImportArgGapDropped" \in Devs) => "ImportArgGapDropped" \in Allowed
 NoJoin == AtEnd => LineCommentEndsLine(vst.ch)
 TerminalsKept == AtEnd => ChunkText(vst.ch) = BodyText(file.body, opts)
 StepwiseIsFunctional == AtEnd => JoinNl(js.res) = Format(file, opts)
